@@ -247,6 +247,23 @@ def process_template(tmpl_text, repo=None):
     i = 0
     while i < len(lines):
         line = lines[i]
+        cm = re.match(r'^\s*//@const\s+(.*)$', line)
+        if cm:
+            # copy a `const NAME: T = EXPR;` item verbatim from the source (made `pub`)
+            ckv = parse_kv(cm.group(1))
+            cpath = os.path.join(repo, ckv["file"])
+            if not os.path.exists(cpath):
+                raise ExtractError(f"{ckv['file']} not found (lost anchor)")
+            hits = re.findall(r'^[ \t]*(?:pub(?:\([a-z]+\))?[ \t]+)?(const[ \t]+' + re.escape(ckv["name"]) +
+                              r'[ \t]*:[^=;]+=[^;]+;)', open(cpath).read(), flags=re.M)
+            if len(hits) != 1:
+                raise ExtractError(f"const `{ckv['name']}` found {len(hits)} times in {ckv['file']}")
+            out.append(f"// ---- copied from {ckv['file']} ----")
+            out.append("pub " + hits[0])
+            log.append({"file": ckv["file"], "fn": "const " + ckv["name"], "impl": None, "line": 0,
+                        "const": ckv["name"], "text": hits[0], "substitutions": [], "injections": []})
+            i += 1
+            continue
         m = re.match(r'^\s*//@extract\s+(.*)$', line)
         if not m:
             out.append(line)
